@@ -136,6 +136,13 @@ C07_OnlyValid(x) ==
     /\ (x.afterD.kind = "txs" => x.afterD.ids \subseteq ((IF x.beforeD.kind = "txs" THEN x.beforeD.ids ELSE {}) \cup GoodTxs(x.d)))
     /\ (x.afterD.kind = "reg" => x.afterD.ops \subseteq ((IF x.beforeD.kind = "reg" THEN x.beforeD.ops ELSE {}) \cup GoodOps(x.d)))
 
+\* replicated (unpaid) deliveries used by the concurrent model
+D0base == [path |-> "repl", kind |-> "Scratchpad", keyOk |-> TRUE, pay |-> "none", parse |-> "ok",
+           pad |-> [c |-> 1, sig |-> "ok", content |-> 10], txs |-> {}, ops |-> {}]
+D0pad == D0base
+D0txs == [D0base EXCEPT !.kind = "Transaction"]
+D0reg == [D0base EXCEPT !.kind = "Register"]
+
 Clauses == {"C03_PaidOnly", "C03_RejectOtherwise", "C03_UnpaidOnlyUpdates", "C04_StoredUnderDerivedKey",
             "C04_MismatchRejected", "C04_NotReadableBeforeValidation", "C04_UnparseableRefused",
             "C07_Applied", "C07_ScratchpadMonotone", "C07_GrowOnly", "C07_OnlyValid"}
